@@ -157,6 +157,21 @@ class BaseNode(Node):
             value.convert(self.units_raw, env)
         self.set_value(value.value)
 
+    def raw_value(self):
+        """ Return current value (after all modifications) in its raw form
+        """
+        if self.value is None:
+            return self.value_raw
+        value = self.value.value if isinstance(self.value, Type) else self.value
+        if isinstance(value, (list, np.ndarray)):
+            return json.dumps(np.array(value).tolist())
+        elif isinstance(value, (bool, np.bool_)):
+            return Keyword.TRUE if value else Keyword.FALSE
+        elif value is None:
+            return Keyword.NONE
+        else:
+            return str(self.dtype(value))
+
     def slice_value(self, slices, value=None):
         """ Slice part of the value
 
@@ -199,7 +214,7 @@ class BaseNode(Node):
         if isinstance(nodes, str):   # block import
             node.value_raw = nodes
         else:                        # node import
-            node.value_raw = nodes[0].value_raw
+            node.value_raw = nodes[0].raw_value()
             if not node.units_raw:
                 node.units_raw = nodes[0].units_raw
         
